@@ -368,8 +368,12 @@ def main(tier, seed):
     ]
     from checks import c03_live
     live = c03_live.plan(run, tier, seed)
-    common.run_sharded(run, shards, timeout=900 if q else 7200)
-    common.run_sharded(run, live, timeout=900 if q else 3600, nproc=8)
+    if q:
+        # the live scenarios mostly wait on wall-clock time: start them first and fill the remaining cores with simulation shards
+        common.run_sharded(run, live + shards, timeout=900)
+    else:
+        common.run_sharded(run, shards, timeout=7200)
+        common.run_sharded(run, live, timeout=3600, nproc=8)
     run.extra_cov["traces_validated_against_impl"] = run.reach.get("traces_validated_against_impl", 0)
     return run.finish()
 
